@@ -96,7 +96,7 @@ def run_verus(text, tag, timeout=600, extra_args=None):
         open(path, "w").write(text)
         if os.environ.get("PV_KEEP"):
             shutil.copy(path, os.path.join(SCRATCH_ROOT, "pv_last_%s.rs" % tag))
-        cmd = ["verus", path, "--output-json", "--time", "--triggers-mode", "silent", "--error-format=json", "--num-threads", "8"] + (extra_args or [])
+        cmd = ["verus", path, "--output-json", "--time", "--triggers-mode", "silent", "--error-format=json", "--num-threads", "8", "--multiple-errors", "40"] + (extra_args or [])
         import subprocess
         t0 = time.time()
         try:
